@@ -3,13 +3,14 @@
 # <P>-1/-2) and /tmp/seedout2 (round 2, names <P>-3/-4) that has no
 # /verif/seeded/<name>/meta.json yet
 cd /verif
-for root in /tmp/seedout:0 /tmp/seedout2:2 /tmp/seedout3:4 /tmp/seedout4:6 /tmp/seedout5:8 /tmp/seedout6:10 /tmp/seedout7:12 /tmp/seedout8:R8; do
+for root in /tmp/seedout:0 /tmp/seedout2:2 /tmp/seedout3:4 /tmp/seedout4:6 /tmp/seedout5:8 /tmp/seedout6:10 /tmp/seedout7:12 /tmp/seedout8:R8 /tmp/seedout9:R9; do
   R=${root%%:*}; OFF=${root##*:}
   for d in $R/*/*/; do
     [ -d "$d" ] || continue
     P=$(basename $(dirname $d)); N=$(basename $d)
     O=$OFF
     if [ "$OFF" = R8 ]; then case $P in C06|C19|C20) O=10;; *) O=8;; esac; fi
+    if [ "$OFF" = R9 ]; then case $P in C13|C14|C15|C16|C17) O=9;; *) O=12;; esac; fi
     NAME=$P-$((N+O))
     [ -f $d/patch.diff ] && [ -f $d/meta.json ] && [ -f $d/demo_test.go ] || continue
     [ -f seeded/$NAME/meta.json ] && continue
